@@ -51,6 +51,11 @@ DEFAULT_SPEC = {
     "long_locus": 0,       # 1: extra chromosome chrL with a > 64 kb read island that IsoQuant splits at a coverage valley
     "exp_bams": None,      # per-experiment number of files (overrides n_bams)
     "novel_one_file": 0,   # reads of unannotated isoforms all go to the first file of their experiment
+    "chr_naming": 0,       # 1: names with underscores and dots (NC_000067.6, chrUn_KI270, scaffold_12, ...)
+    "split_gene": 0,       # 1: a gene whose two isoforms use disjoint exon sets, with another gene nested between them
+    "decoy_chr": 0,        # 1: extra chromosome on which every alignment is filtered out (MAPQ 0, unspliced secondary, supplementary)
+    "novel_locus": 0,      # 1: an unannotated multi-exon locus with good coverage on every chromosome (-> novel genes)
+    "twin_chr": 0,         # 1: extra chromosome that is a copy of the first one (same coordinates and strands, own gene ids and reads)
     "novel_gene_overlap": 0,  # k unannotated transcripts inside an annotated gene's span with entirely novel (shifted) introns
     "bam_split": "random", # how reads are dealt into files: random | chunks (contiguous by position) | tiny (one file gets 1 read)
 }
@@ -117,9 +122,13 @@ def gene_name(s, n):
     return ["G%d", "zg%d", "si:dkey-%d"][s.get("gene_naming", 0) % 3] % n
 
 
+ALT_CHR_NAMES = ["NC_000067.6", "chrUn_KI270", "scaffold_12", "NW_0042.1", "chr_5", "ctg_7_alt", "NC_000077.1", "un_9"]
+
+
 def generate(spec):
     """returns ground truth dict with python objects (chroms, genes, reads)"""
     s = full_spec(spec)
+    CHR_NAMES = ALT_CHR_NAMES if s.get("chr_naming") else globals()["CHR_NAMES"]
     rg = random.Random("%d/genome" % s["seed"])
     n_chr = max(1, min(s["n_chr"], len(CHR_NAMES)))
     chroms = []   # (name, list of chars)
@@ -159,9 +168,38 @@ def generate(spec):
             if n >= 4 and rg.random() < 0.5:
                 g.isoforms.append((g.gid + ".t3", list(range(n - 1))))
 
-    flat = [g for cg in genes for g in cg]
+    if s["split_gene"]:
+        # host gene H: t1 = exons 0,1   t2 = exons 2,3 ; gene N nested between exon 1 and exon 2; three separate read islands
+        pos = layout[0] + 300
+        ex = []
+        for k in range(4):
+            ex.append((pos, pos + 200))
+            pos += 200 + (260 if k != 1 else 2600)
+        gcount += 1
+        h = Gene(gene_name(s, gcount), CHR_NAMES[0], "+", ex)
+        h.isoforms = [(h.gid + ".t1", [0, 1]), (h.gid + ".t2", [2, 3])]
+        npos = ex[1][1] + 700
+        gcount += 1
+        n_ = Gene(gene_name(s, gcount), CHR_NAMES[0], "-", [(npos, npos + 220), (npos + 520, npos + 760)])
+        n_.isoforms = [(n_.gid + ".t1", [0, 1])]
+        h.no_extra = n_.no_extra = True
+        genes[0] += [h, n_]
+        layout[0] = ex[-1][1] + 1500
+    if s["novel_locus"]:
+        for ci in range(n_chr):
+            pos = layout[ci] + 400
+            ex = [(pos, pos + 180), (pos + 420, pos + 610), (pos + 900, pos + 1150)]
+            gcount += 1
+            nl = Gene("NL%d" % gcount, CHR_NAMES[ci], "+" if ci % 2 == 0 else "-", ex)
+            nl.isoforms = [("novel:NL%d:0" % gcount, [0, 1, 2])]
+            nl.hidden = True
+            nl.no_extra = True
+            genes[ci].append(nl)
+            layout[ci] = ex[-1][1] + 1200
+    flat = [g for cg in genes for g in cg if not getattr(g, "no_extra", False)]
     # candidates for unannotated isoforms are taken round-robin over the chromosomes (novel models on several chromosomes)
-    multi = [g for _, _, g in sorted(((gi, ci, g) for ci, cg in enumerate(genes) for gi, g in enumerate(cg) if len(g.exons) >= 3),
+    multi = [g for _, _, g in sorted(((gi, ci, g) for ci, cg in enumerate(genes) for gi, g in enumerate(cg)
+                                      if len(g.exons) >= 3 and not getattr(g, "no_extra", False)),
                                      key=lambda x: (x[0], x[1]))]
     # novel isoforms
     for g in multi[: s["novel"]]:
@@ -243,7 +281,7 @@ def generate(spec):
             for num in range(1 + 2 * ci, 7 + 2 * ci):
                 for suf in ("nic", "nnic"):
                     gcount += 1
-                    pg = Gene("novel_gene_%s_%d" % (CHR_NAMES[ci], 100 + 2 * num + (suf == "nnic")), CHR_NAMES[ci],
+                    pg = Gene("novel_gene_%s_%d" % (CHR_NAMES[ci], 7 + 2 * ci + 2 * (num - 1 - 2 * ci) + (suf == "nnic")), CHR_NAMES[ci],
                               "+" if num % 2 else "-", [(pos, pos + 150)])
                     pg.isoforms = [("transcript%d.%s.%s" % (num, CHR_NAMES[ci], suf), [0])]
                     pg.annotation_only = True
@@ -319,6 +357,39 @@ def generate(spec):
                     seq[b + k - 1] = "C"
                 if a - k >= 1 and seq[a - k - 1] == "T":
                     seq[a - k - 1] = "G"
+    twin_genes = []
+    if s["twin_chr"]:
+        src_name, src_seq = chroms[0]
+        tname = "chrT" if not s.get("chr_naming") else "NT_twin.1"
+        tlen = len(src_seq) + 37
+        while tlen in [len(sq) for _, sq in chroms]:
+            tlen += 1
+        rs = random.Random("%d/seq/twin" % s["seed"])
+        chroms.append([tname, list(src_seq) + [BASES[rs.randrange(4)] for _ in range(tlen - len(src_seq))]])
+        names.append(tname)
+        cidx[tname] = len(chroms) - 1
+        for g in list(genes[0]):
+            if g.paralog_of is not None or getattr(g, "antisense_of", None) is not None or getattr(g, "fixed_ids", False):
+                continue
+            gcount += 1
+            tg = Gene(gene_name(s, gcount), tname, g.strand, list(g.exons))
+            tg.isoforms = [(tg.gid + "." + tid.split(".")[-1], idx) for tid, idx in g.isoforms]
+            tg.novel = [list(x) for x in g.novel]
+            tg.annotation_only = getattr(g, "annotation_only", False)
+            tg.hidden = getattr(g, "hidden", False)
+            tg.no_extra = True
+            tg.twin = True
+            twin_genes.append(tg)
+        genes.append(twin_genes)
+    if s["decoy_chr"]:
+        dname = "chrD" if not s.get("chr_naming") else "decoy_1"
+        rs = random.Random("%d/seq/decoy" % s["seed"])
+        dl = 3000 + rg.randrange(100)
+        while dl in [len(sq) for _, sq in chroms]:
+            dl += 1
+        chroms.append([dname, [BASES[rs.randrange(4)] for _ in range(dl)]])
+        names.append(dname)
+        cidx[dname] = len(chroms) - 1
     chroms = [(n, "".join(sq)) for n, sq in chroms]
 
     # ---- reads
@@ -353,7 +424,8 @@ def generate(spec):
     para_of = {p.paralog_of.gid: p for p in paralogs}
     deep = None
     if s["deep_gene"]:
-        cands = [g for g in allgenes if len(g.isoforms) >= 2 and g.paralog_of is None and g.gid not in para_of]
+        cands = [g for g in allgenes if len(g.isoforms) >= 2 and g.paralog_of is None and g.gid not in para_of
+                 and not getattr(g, "no_extra", False)]
         deep = cands[0] if cands else None
         if deep is not None and not deep.novel:
             n = len(deep.exons)
@@ -366,7 +438,8 @@ def generate(spec):
     for g in allgenes:
         if getattr(g, "annotation_only", False):
             continue
-        variants = [(tid, idx, s["reads_per_iso"], False) for tid, idx in g.isoforms]
+        variants = [(tid, idx, s["reads_per_iso"] if not str(tid).startswith("novel:") else max(5, s["novel_cov"]),
+                     str(tid).startswith("novel:")) for tid, idx in g.isoforms]
         variants += [("novel:%s:%d" % (g.gid, k), idx, s["novel_cov"], True) for k, idx in enumerate(g.novel)]
         if g is deep:
             variants = [(tid, idx, 200 if k == 0 else 20, False) for k, (tid, idx) in enumerate(g.isoforms)]
@@ -460,6 +533,23 @@ def generate(spec):
             rid += 1
             reads.append({"id": "r%04d" % rid, "src": kind, "gene": None, "kind": kind,
                           "records": [mk_record("chrL", [(max(1, a), b) for a, b in blocks], "+", False)]})
+    if s["decoy_chr"]:
+        dname = names[-1]
+        rid += 1
+        reads.append({"id": "r%04d" % rid, "src": "decoy", "gene": None, "kind": "decoy_mapq0",
+                      "records": [mk_record(dname, [(200, 460)], "+", False, mapq=0)]})
+        rid += 1
+        reads.append({"id": "r%04d" % rid, "src": "decoy", "gene": None, "kind": "decoy_mapq0",
+                      "records": [mk_record(dname, [(900, 1210)], "-", False, mapq=0)]})
+        if reads:
+            # an unspliced secondary and a supplementary record of reads whose primary alignment is elsewhere
+            r0 = reads[0]
+            r0["records"].append(mk_record(dname, [(1500, 1720)], "+", False, flag_extra=256, with_seq=bool(s["secondary_seq"])))
+            r0["kind"] += "+decoy_secondary"
+            r1 = reads[min(1, len(reads) - 1)]
+            if r1 is not r0:
+                r1["records"].append(mk_record(dname, [(2000, 2150)], "+", False, flag_extra=2048))
+                r1["kind"] += "+decoy_supp"
     for k in range(s["intergenic_multi"]):
         if len(chroms) < 2:
             break
@@ -558,6 +648,9 @@ def _gtf_lines(truth):
             continue
         first_on_chr = True
         for g in sorted(by_chr.get(chrom, []), key=lambda g: g.span()):
+            if getattr(g, "hidden", False):
+                g.unannotated = True
+                continue
             gid = g.gid
             a, b = g.span()
             if getattr(g, "fixed_ids", False):
@@ -739,7 +832,8 @@ def random_spec(rng, profile="small"):
              drop_chr_annotation=rng.choice([0, 0, 0, 1]), readthrough=rng.choice([0, 0, 1]), mirror=rng.choice([0, 0, 1]),
              intergenic_multi=rng.choice([0, 0, 1, 2]), deep_gene=rng.choice([0] * 9 + [1]),
              long_locus=rng.choice([0, 0, 0, 0, 1]), bam_split=rng.choice(["random", "random", "chunks", "tiny"]),
-             novel_gene_overlap=rng.choice([0, 0, 1]))
+             novel_gene_overlap=rng.choice([0, 0, 1]), chr_naming=rng.choice([0, 0, 0, 1]), split_gene=rng.choice([0, 0, 1]),
+             decoy_chr=rng.choice([0, 0, 1]), novel_locus=rng.choice([0, 0, 1]), twin_chr=rng.choice([0, 0, 0, 1]))
     return s
 
 
